@@ -25,7 +25,9 @@ import (
 	"mime"
 	"os"
 	"path/filepath"
+	"runtime"
 	"sort"
+	"sync"
 	"time"
 	_ "time/tzdata" // the embedded zone database, should the host have none
 
@@ -116,6 +118,18 @@ type Input struct {
 	TrailingNewline  bool     `json:"trailingNewline"`
 	ExtAttrs         string   `json:"extAttrs"`
 	TimeZone         string   `json:"timeZone"`
+	Policy           Policy   `json:"policy"`
+	InFlight         string   `json:"inFlight"`
+
+	// concretisation only: what the blob readers are wrapped in (gates of a pinned interleaving, yields)
+	wrapSign, wrapVerify func(io.Reader) io.Reader
+}
+
+// Policy is the shape of the trust policy statement the verification runs under.
+type Policy struct {
+	TSAStore        bool   `json:"tsaStore"`
+	VerifyTimestamp string `json:"verifyTimestamp"`
+	Named           bool   `json:"named"`
 }
 
 // History is what happened before on the shared signer object this round trip uses.
@@ -177,12 +191,19 @@ type world struct {
 	// shared objects: one GenericSigner per key and constructor, ONE PluginSigner per plugin kind
 	// (the key behind its key id changes between calls), ONE verifier per identity style
 	signers   map[string]*signerObj
-	verifiers map[bool]bothVerifier
+	verifiers map[verifierKey]bothVerifier
+	mu        sync.Mutex // guards the two maps and the history of the signer objects (concurrent stages)
+	inFlight  bool       // a concurrent stage runs: time.Local is left alone (it is process-wide)
+}
+
+type verifierKey struct {
+	exact  bool
+	policy Policy
 }
 
 func newWorld(c *common.Ctx) *world {
 	w := &world{c: c, keys: map[string]*keyWorld{}, store: common.NewMemStore(), blobs: map[int][]*blobData{},
-		signers: map[string]*signerObj{}, verifiers: map[bool]bothVerifier{}}
+		signers: map[string]*signerObj{}, verifiers: map[verifierKey]bothVerifier{}}
 	var roots []*x509.Certificate
 	for _, name := range specNames {
 		spec := specOf[name]
@@ -206,6 +227,9 @@ func newWorld(c *common.Ctx) *world {
 		roots = append(roots, chain.Root().Cert)
 	}
 	w.store.Certs["ca:c07"] = roots
+	// a tsa store the statements may name; no signature of this harness carries a timestamp
+	tsaRoot := common.MakeChain(common.ChainOpts{Tag: "c07-tsa"}).Root().Cert
+	w.store.Certs["tsa:c07tsa"] = []*x509.Certificate{tsaRoot}
 	return w
 }
 
@@ -580,6 +604,82 @@ func (rd Reader) reader(content []byte) io.Reader {
 
 const copyChunk = 32 * 1024 // io.Copy's buffer; scripted reads never exceed it
 
+var verifyTimestamps = []string{"unset", "always", "afterCertExpiry"}
+
+// genPolicy draws a policy shape; shapes that demand a timestamp (which no signature here has) are the minority
+func genPolicy(c *common.Ctx) Policy {
+	p := Policy{TSAStore: chance(c, 0.5), VerifyTimestamp: pick(c, verifyTimestamps), Named: chance(c, 0.5)}
+	if p.TSAStore && p.VerifyTimestamp != "afterCertExpiry" && chance(c, 0.6) {
+		p.VerifyTimestamp = "afterCertExpiry"
+	}
+	return p
+}
+
+// ---- other calls in flight -----------------------------------------------------------------------------------
+
+// a pinned interleaving of two blob calls: the FIRST call's reader fills the consumer's buffer with its first
+// read, then lets the SECOND call run to completion before its Read returns
+type gate struct {
+	firstFilled chan struct{} // closed when the first call's first Read has filled the buffer
+	secondDone  chan struct{} // closed when the second call has returned
+}
+
+type firstReader struct {
+	r    io.Reader
+	g    *gate
+	done bool
+}
+
+func (f *firstReader) Read(p []byte) (int, error) {
+	n, err := f.r.Read(p)
+	if !f.done {
+		f.done = true
+		close(f.g.firstFilled)
+		select {
+		case <-f.g.secondDone:
+		case <-time.After(20 * time.Second):
+		}
+	}
+	return n, err
+}
+
+// yieldReader hands the processor to other goroutines around every Read
+type yieldReader struct{ r io.Reader }
+
+func (y yieldReader) Read(p []byte) (int, error) {
+	runtime.Gosched()
+	n, err := y.r.Read(p)
+	runtime.Gosched()
+	return n, err
+}
+
+// pinned runs `first` and `second` so that second runs entirely while first is inside its first Read.
+// first gets the wrapper for its reader; it is started first, second only once first's reader has been read.
+func pinned(first func(wrap func(io.Reader) io.Reader), second func()) {
+	g := &gate{firstFilled: make(chan struct{}), secondDone: make(chan struct{})}
+	old := runtime.GOMAXPROCS(1) // one P: whatever the first call handed to a pool is what the second call gets
+	defer runtime.GOMAXPROCS(old)
+	var wg sync.WaitGroup
+	wg.Add(1)
+	go func() {
+		defer wg.Done()
+		first(func(r io.Reader) io.Reader { return &firstReader{r: r, g: g} })
+		// a first call that never read (refused): do not keep the second waiting
+		select {
+		case <-g.firstFilled:
+		default:
+			close(g.firstFilled)
+		}
+	}()
+	select {
+	case <-g.firstFilled:
+	case <-time.After(20 * time.Second):
+	}
+	second()
+	close(g.secondDone)
+	wg.Wait()
+}
+
 var timeZones = []string{"UTC", "America/New_York", "Europe/Berlin", "Australia/Lord_Howe"}
 
 // validities that, from whatever day the run happens on, reach across one daylight-saving change in some zone
@@ -764,8 +864,13 @@ type signedCase struct {
 
 // sharedVerifier returns THE verifier object of an identity style (created once, used for every
 // verification of the run): wildcard identity, or the exact subjects of the six signing certificates.
-func (w *world) sharedVerifier(exact bool) bothVerifier {
-	if v, ok := w.verifiers[exact]; ok {
+const ociScope = "reg.example/c07"
+
+func (w *world) sharedVerifier(exact bool, pol Policy) bothVerifier {
+	w.mu.Lock()
+	defer w.mu.Unlock()
+	key := verifierKey{exact, pol}
+	if v, ok := w.verifiers[key]; ok {
 		return v
 	}
 	ids := []string{"*"}
@@ -777,18 +882,33 @@ func (w *world) sharedVerifier(exact bool) bothVerifier {
 	}
 	sv := trustpolicy.SignatureVerification{VerificationLevel: "strict",
 		Override: map[trustpolicy.ValidationType]trustpolicy.ValidationAction{trustpolicy.TypeRevocation: trustpolicy.ActionSkip}}
+	switch pol.VerifyTimestamp {
+	case "always":
+		sv.VerifyTimestamp = trustpolicy.OptionAlways
+	case "afterCertExpiry":
+		sv.VerifyTimestamp = trustpolicy.OptionAfterCertExpiry
+	}
+	stores := []string{"ca:c07"}
+	if pol.TSAStore {
+		stores = append(stores, "tsa:c07tsa")
+	}
+	scopes := []string{"*"}
+	if pol.Named {
+		scopes = []string{ociScope}
+	}
 	opts := verifier.VerifierOptions{
 		OCITrustPolicy: &trustpolicy.OCIDocument{Version: "1.0", TrustPolicies: []trustpolicy.OCITrustPolicy{{
-			Name: "c07", RegistryScopes: []string{"*"}, SignatureVerification: sv,
-			TrustStores: []string{"ca:c07"}, TrustedIdentities: ids}}},
+			Name: "c07", RegistryScopes: scopes, SignatureVerification: sv,
+			TrustStores: stores, TrustedIdentities: ids}}},
+		// blob: the global statement, or a named one picked by TrustPolicyName
 		BlobTrustPolicy: &trustpolicy.BlobDocument{Version: "1.0", TrustPolicies: []trustpolicy.BlobTrustPolicy{{
-			Name: "c07", SignatureVerification: sv, TrustStores: []string{"ca:c07"}, TrustedIdentities: ids, GlobalPolicy: true}}},
+			Name: "c07", SignatureVerification: sv, TrustStores: stores, TrustedIdentities: ids, GlobalPolicy: !pol.Named}}},
 	}
 	v, err := verifier.NewVerifierWithOptions(w.store, opts)
 	if err != nil {
 		panic(fmt.Sprintf("c07: NewVerifierWithOptions: %v", err))
 	}
-	w.verifiers[exact] = v
+	w.verifiers[key] = v
 	return v
 }
 
@@ -880,6 +1000,7 @@ const tagName = "v1"
 // sign runs the signing API; content is the artifact (oci) or the blob.
 func (w *world) sign(in Input, content []byte) *signedCase {
 	ctx := context.Background()
+	w.mu.Lock()
 	obj := w.sharedSigner(in)
 	// the history of the shared object is part of the case; this call becomes its last one
 	via := in.History.KeyVia
@@ -887,6 +1008,8 @@ func (w *world) sign(in Input, content []byte) *signedCase {
 	in.History.KeyVia = via
 	ks, kd, fm := in.KeySpec, in.Kind, in.Format
 	obj.hist = History{Position: obj.hist.Position + 1, PrevKeySpec: &ks, PrevKind: &kd, PrevFormat: &fm}
+	concurrent := w.inFlight
+	w.mu.Unlock()
 	sc := &signedCase{in: in, content: content}
 	s := obj.s
 	sso := notation.SignerSignOptions{SignatureMediaType: formatOf[in.Format], ExpiryDuration: time.Duration(in.DurationNs), SigningAgent: in.Agent}
@@ -911,16 +1034,22 @@ func (w *world) sign(in Input, content []byte) *signedCase {
 	if err != nil {
 		panic(fmt.Sprintf("c07: time zone %q: %v", in.TimeZone, err))
 	}
-	oldLocal := time.Local
-	time.Local = loc
-	defer func() { time.Local = oldLocal }()
+	if !concurrent {
+		oldLocal := time.Local
+		time.Local = loc
+		defer func() { time.Local = oldLocal }()
+	}
 	var sig []byte
 	sigMT := formatOf[in.Format]
 	if in.Kind == "blob" {
 		var b []byte
 		for try := 0; ; try++ {
 			var err error
-			b, _, err = notation.SignBlob(ctx, s, in.SignReader.reader(content), notation.SignBlobOptions{
+			rd := in.SignReader.reader(content)
+			if in.wrapSign != nil {
+				rd = in.wrapSign(rd)
+			}
+			b, _, err = notation.SignBlob(ctx, s, rd, notation.SignBlobOptions{
 				SignerSignOptions: sso, ContentMediaType: in.ContentMediaType, UserMetadata: kvMap(in.Metadata)})
 			if err != nil {
 				return sc
@@ -1008,7 +1137,7 @@ func (w *world) sign(in Input, content []byte) *signedCase {
 func (w *world) verify(sc *signedCase) Obs {
 	ctx := context.Background()
 	in, o := sc.in, sc.obs
-	v := w.sharedVerifier(in.ExactIdentity)
+	v := w.sharedVerifier(in.ExactIdentity, in.Policy)
 	var outcome *notation.VerificationOutcome
 	var returned ocispec.Descriptor
 	if in.Kind == "blob" {
@@ -1018,8 +1147,16 @@ func (w *world) verify(sc *signedCase) Obs {
 			// a detached JWS signature file with a line break at its end
 			sig = append(append([]byte{}, sig...), '\n')
 		}
-		d, vo, err := notation.VerifyBlob(ctx, v, in.VerifyReader.reader(sc.content), sig, notation.VerifyBlobOptions{
-			BlobVerifierVerifyOptions: notation.BlobVerifierVerifyOptions{SignatureMediaType: formatOf[in.Format], UserMetadata: wantedMetadata(in)},
+		rd := in.VerifyReader.reader(sc.content)
+		if in.wrapVerify != nil {
+			rd = in.wrapVerify(rd)
+		}
+		policyName := ""
+		if in.Policy.Named {
+			policyName = "c07"
+		}
+		d, vo, err := notation.VerifyBlob(ctx, v, rd, sig, notation.VerifyBlobOptions{
+			BlobVerifierVerifyOptions: notation.BlobVerifierVerifyOptions{SignatureMediaType: formatOf[in.Format], UserMetadata: wantedMetadata(in), TrustPolicyName: policyName},
 			ContentMediaType:          stated})
 		if err != nil {
 			return o
@@ -1085,10 +1222,14 @@ func (w *world) roundTrip(in Input, content []byte) (Input, Obs) {
 func pick[T any](c *common.Ctx, xs []T) T  { return xs[c.Rand.Intn(len(xs))] }
 func chance(c *common.Ctx, p float64) bool { return c.Rand.Float64() < p }
 
-var annotationKeys = []string{"org.opencontainers.image.created", "vendor", "buildId", "commit", "k", "ünïcode-ключ", "a.b/c", "io.cncf.notary.x509chain.thumbprint#S256", "Z", "zz"}
-var metadataKeys = []string{"buildId", "commit", "k", "ünïcode-ключ", "team", "Z", "zz", "io.cncf.notar", "IO.CNCF.NOTARY.upper", "0"}
+var annotationKeys = []string{"org.opencontainers.image.created", "vendor", "buildId", "commit", "k", "ünïcode-ключ", "a.b/c", "io.cncf.notary.x509chain.thumbprint#S256", "Z", "zz", " vendor", "k "}
+var metadataKeys = []string{"buildId", "commit", "k", "ünïcode-ключ", "team", "Z", "zz", "io.cncf.notar", "IO.CNCF.NOTARY.upper", "0",
+	" commit", "build ", "pipeline\t", "\tx", " ", "a b c", " io.cncf.notary.padded", "k "}
+
+// keys with white space at either end (the caller's spelling is what is signed, required and read back)
+var paddedKeys = []string{" commit", "build ", "pipeline\t", "\tx", " ", " io.cncf.notary.padded", "k ", " k", "\nline"}
 var reservedKeys = []string{"io.cncf.notary", "io.cncf.notary.foo", "io.cncf.notaryx", "io.cncf.notary.x509chain.thumbprint#S256"}
-var values = []string{"", "1", "v", "a b", "ü✓", "{\"json\":true}", "0123456789abcdef0123456789abcdef", "line1\nline2"}
+var values = []string{"", "1", "v", "a b", "ü✓", "{\"json\":true}", "0123456789abcdef0123456789abcdef", "line1\nline2", " v", "v ", "\t"}
 var ociMediaTypes = []string{ocispec.MediaTypeImageManifest, ocispec.MediaTypeImageIndex, "application/vnd.c07.custom.v1+json", "application/octet-stream"}
 var blobMediaTypes = []string{"application/octet-stream", "text/plain; charset=utf-8", "application/vnd.example+json;version=1", "a/b",
 	"application/vnd.c07.blob", "video/mp4; codecs=\"avc1.640028\""}
@@ -1195,6 +1336,11 @@ func (w *world) genCase(c *common.Ctx) (Input, []byte) {
 	in.Format = pick(c, []string{"jws", "cose"})
 	in.Signer = pick(c, signerKinds)
 	setKeyVia(&in, pick(c, []string{"rotated", "pluginConfig"}))
+	in.InFlight = "alone"
+	in.Policy = Policy{VerifyTimestamp: "unset"}
+	if chance(c, 0.5) {
+		in.Policy = genPolicy(c)
+	}
 	in.TimeZone = "UTC"
 	if chance(c, 0.6) {
 		in.TimeZone = pick(c, timeZones)
@@ -1342,6 +1488,15 @@ func count(c *common.Ctx, in Input, o Obs) {
 		c.Count("envelopePluginTamper=" + in.Tamper)
 	}
 	c.Count("timeZone=" + in.TimeZone)
+	c.Count("inFlight=" + in.InFlight)
+	c.Count(fmt.Sprintf("policy:tsa=%v,verifyTimestamp=%s", in.Policy.TSAStore, in.Policy.VerifyTimestamp))
+	c.Count(fmt.Sprintf("policy:named=%v", in.Policy.Named))
+	for _, kv := range in.Metadata {
+		if kv.K != "" && (kv.K[0] == ' ' || kv.K[0] == '\t' || kv.K[len(kv.K)-1] == ' ' || kv.K[len(kv.K)-1] == '\t') {
+			c.Count("metadataKeyWithOuterWhiteSpace")
+			break
+		}
+	}
 	if in.Signer == "pluginEnvelope" {
 		c.Count("envelopePluginExtAttrs=" + in.ExtAttrs)
 	}
@@ -1572,6 +1727,183 @@ func Run(c *common.Ctx) error {
 		}
 	}
 
+	// (2g) policy shapes: with / without a tsa store x verifyTimestamp unset / always / afterCertExpiry x
+	// wildcard or exact scope (oci), global or named statement (blob); no signature carries a timestamp
+	for _, tsa := range []bool{false, true} {
+		for _, vt := range verifyTimestamps {
+			for _, named := range []bool{false, true} {
+				for kn, kind := range []string{"oci", "blob"} {
+					in, content := w.genCase(c)
+					for in.Kind != kind {
+						in, content = w.genCase(c)
+					}
+					in.Format = []string{"jws", "cose"}[(kn+len(vt))%2]
+					in.Tamper, in.ExtAttrs, in.TrailingNewline = "faithful", "none", false
+					in.Metadata = genKV(c, metadataKeys[:7], c.Rand.Intn(2))
+					if kind == "oci" {
+						in.Desc.Annotations = []KV{}
+					} else {
+						in.ContentMediaType, in.MediaTypeValid = pick(c, blobMediaTypes), true
+					}
+					in.VerifyMediaType, in.VerifyMetadata = "same", "all"
+					in.DurationNs = int64(pick(c, legalDurations))
+					in.Policy = Policy{TSAStore: tsa, VerifyTimestamp: vt, Named: named}
+					emit(w.roundTrip(in, content))
+				}
+			}
+		}
+	}
+
+	// (2h) user-metadata keys (and artifact annotation keys) with white space at either end
+	for _, kind := range []string{"oci", "blob"} {
+		for _, f := range []string{"jws", "cose"} {
+			for _, vm := range []string{"all", "nothing"} {
+				in, content := w.genCase(c)
+				for in.Kind != kind {
+					in, content = w.genCase(c)
+				}
+				in.Format, in.Tamper, in.ExtAttrs, in.TrailingNewline = f, "faithful", "none", false
+				in.Policy = Policy{VerifyTimestamp: "unset"}
+				in.Metadata = genKV(c, paddedKeys, 1+c.Rand.Intn(3))
+				if kind == "oci" {
+					// annotations whose keys differ from metadata keys only by the padding
+					in.Desc.Annotations = genKV(c, []string{"k", "commit", "build", "vendor "}, c.Rand.Intn(3))
+				} else {
+					in.ContentMediaType, in.MediaTypeValid = pick(c, blobMediaTypes), true
+				}
+				in.VerifyMediaType, in.VerifyMetadata = "same", vm
+				in.DurationNs = int64(pick(c, legalDurations))
+				emit(w.roundTrip(in, content))
+			}
+		}
+	}
+
+	// (2i) two blob calls in flight, interleaving pinned: the first call reads its blob into the consumer's buffer, is
+	// suspended inside Read, the second call runs to completion, the first resumes. sign||sign, verify||verify,
+	// verify||sign; blobs of equal size from plain io.Readers (no WriteTo)
+	w.inFlight = true
+	time.Local = time.UTC
+	blobCase := func(size int, f string) (Input, []byte) {
+		in, _ := w.genCase(c)
+		for in.Kind != "blob" {
+			in, _ = w.genCase(c)
+		}
+		content := w.randBytes(size)
+		in.Blob = digests(content)
+		in.Signer, in.Format = pick(c, []string{"localKey", "localFiles"}), f
+		setKeyVia(&in, "rotated")
+		in.Tamper, in.ExtAttrs, in.TrailingNewline, in.TimeZone = "faithful", "none", false, "UTC"
+		in.Policy = Policy{VerifyTimestamp: "unset"}
+		in.Metadata = genKV(c, metadataKeys[:7], c.Rand.Intn(2))
+		in.ContentMediaType, in.MediaTypeValid = "application/octet-stream", true
+		in.VerifyMediaType, in.VerifyMetadata = "same", "all"
+		in.DurationNs = int64(pick(c, []time.Duration{0, time.Hour, 24 * time.Hour}))
+		in.SignReader = genReader(c, size, pick(c, []string{"chunks", "dataEOF", "shortReads"}))
+		in.VerifyReader = genReader(c, size, pick(c, []string{"chunks", "dataEOF", "shortReads"}))
+		return in, content
+	}
+	for pn, pair := range []string{"sign||sign", "verify||verify", "verify||sign"} {
+		for sn, size := range []int{100, copyChunk, copyChunk + 5000} {
+			f := []string{"jws", "cose"}[(pn+sn)%2]
+			a, ca := blobCase(size, f)
+			b, cb := blobCase(size, f)
+			a.InFlight, b.InFlight = "pinnedFirst", "pinnedSecond"
+			var sa, sb *signedCase
+			var oa, ob Obs
+			switch pair {
+			case "sign||sign":
+				pinned(func(wrap func(io.Reader) io.Reader) { a.wrapSign = wrap; sa = w.sign(a, ca) }, func() { sb = w.sign(b, cb) })
+				sa.in.wrapSign = nil
+				oa, ob = sa.obs, sb.obs
+				if sa.obs.Signed {
+					oa = w.verify(sa)
+				}
+				if sb.obs.Signed {
+					ob = w.verify(sb)
+				}
+			case "verify||verify":
+				sa, sb = w.sign(a, ca), w.sign(b, cb)
+				oa, ob = sa.obs, sb.obs
+				if sa.obs.Signed && sb.obs.Signed {
+					pinned(func(wrap func(io.Reader) io.Reader) { sa.in.wrapVerify = wrap; oa = w.verify(sa) }, func() { ob = w.verify(sb) })
+				}
+			case "verify||sign":
+				sa = w.sign(a, ca)
+				oa = sa.obs
+				if sa.obs.Signed {
+					pinned(func(wrap func(io.Reader) io.Reader) { sa.in.wrapVerify = wrap; oa = w.verify(sa) }, func() { sb = w.sign(b, cb) })
+				} else {
+					sb = w.sign(b, cb)
+				}
+				ob = sb.obs
+				if sb.obs.Signed {
+					ob = w.verify(sb)
+				}
+			}
+			c.Count("pinned:" + pair)
+			emit(sa.in, oa)
+			emit(sb.in, ob)
+		}
+	}
+
+	// (2j) free-running: goroutines sign and verify different blobs (and artifacts) at the same time on the shared
+	// signer and verifier objects, readers yield the processor around every Read
+	workers, perWorker := 8, 3
+	if c.Thorough() {
+		workers, perWorker = 16, 12
+	}
+	type job struct {
+		in      Input
+		content []byte
+		out     Input
+		obs     Obs
+	}
+	jobs := make([][]*job, workers)
+	for g := range jobs {
+		for n := 0; n < perWorker; n++ {
+			var j job
+			if chance(c, 0.8) {
+				j.in, j.content = blobCase(pick(c, []int{1, 1000, copyChunk - 1, copyChunk, copyChunk + 1, 3 * copyChunk}), pick(c, []string{"jws", "cose"}))
+			} else {
+				j.in, j.content = w.genCase(c)
+				for j.in.Kind != "oci" {
+					j.in, j.content = w.genCase(c)
+				}
+				j.in.Signer = pick(c, []string{"localKey", "localFiles"})
+				setKeyVia(&j.in, "rotated")
+				j.in.Tamper, j.in.ExtAttrs, j.in.TimeZone = "faithful", "none", "UTC"
+				if j.in.DurationNs > 0 && j.in.DurationNs < int64(time.Minute) {
+					j.in.DurationNs = int64(time.Hour)
+				}
+			}
+			j.in.InFlight = "freeRunning"
+			yield := func(r io.Reader) io.Reader { return yieldReader{r} }
+			j.in.wrapSign, j.in.wrapVerify = yield, yield
+			jobs[g] = append(jobs[g], &j)
+		}
+	}
+	var wg sync.WaitGroup
+	for g := range jobs {
+		wg.Add(1)
+		go func(list []*job) {
+			defer wg.Done()
+			for _, j := range list {
+				sc := w.sign(j.in, j.content)
+				j.out, j.obs = sc.in, sc.obs
+				if sc.obs.Signed {
+					j.obs = w.verify(sc)
+				}
+			}
+		}(jobs[g])
+	}
+	wg.Wait()
+	w.inFlight = false
+	for _, list := range jobs {
+		for _, j := range list {
+			emit(j.out, j.obs)
+		}
+	}
+
 	// (3) random cases
 	for n := 0; n < random; n++ {
 		in, content := w.genCase(c)
@@ -1592,6 +1924,10 @@ func Run(c *common.Ctx) error {
 		"full matrix 6 key specs x 2 formats x 4 signers x {oci, blob} plus random cases (legal and illegal metadata / durations / media types, " +
 		"blob sizes 0 B..4 MiB, verification stating the same / no / another media type and none / all / unsigned metadata) plus verification after a short expiry; " +
 		"lagSec is the planned class of the verification delay (0 = before the expiry, ensured by clock alignment and re-tried otherwise). " +
+		"Policy shapes: the applicable statement has / has no tsa store, verifyTimestamp unset / always / afterCertExpiry, wildcard or exact scope (oci), global or named statement picked by TrustPolicyName (blob); one verifier object per shape, reused. " +
+		"Metadata keys and values with white space at either end. " +
+		"In flight: pairs of blob calls (sign||sign, verify||verify, verify||sign) with the interleaving pinned by a reader that, inside its first Read, lets the other call run to completion (GOMAXPROCS(1)); " +
+		"and goroutines signing and verifying at the same time with readers that yield around every Read. " +
 		"Time zones: signing runs with time.Local set to UTC, America/New_York, Europe/Berlin, Australia/Lord_Howe (host or embedded tzdata), validities 1 h .. 250 d so that some reach across a daylight-saving change; " +
 		"the observed expiry is the difference of the two instants stored in the envelope. " +
 		"Extended attributes: the envelope plugin adds none / one non-critical / several non-critical / a critical / both kinds of extended signed attributes, x {oci, blob} x {jws, cose}. " +
